@@ -160,6 +160,8 @@ func checkParts(where string, rule iec.Rule, orig []byte, parts [][]byte, hashes
 
 // decodeAll: every erasure set of size <= maxErase on a snapshot of parts; full Decode only unless partial.
 func decodeAll(where string, rule iec.Rule, orig []byte, snapshot [][]byte, partial bool, key string, rp any) {
+	// partial == false (multi-rule part): parts were already compared byte-for-byte with a private encoding, so only
+	// the no-erasure and every single-erasure decode are run (the full erasure enumeration is part A's job)
 	d, p := int(rule.DataPartNum), int(rule.ParityPartNum)
 	n := d + p
 	lc := lenClass(len(orig), d)
@@ -171,7 +173,7 @@ func decodeAll(where string, rule iec.Rule, orig []byte, snapshot [][]byte, part
 	same := func(a, b []byte) bool { return len(a) == len(b) && bytes.Equal(a, b) }
 	for mask := uint64(0); mask < 1<<uint(n); mask++ {
 		k := bits.OnesCount64(mask)
-		if k > p+1 {
+		if k > p+1 || (!partial && k > 1) {
 			continue
 		}
 		ec := eclass(mask, d)
@@ -210,7 +212,7 @@ func decodeAll(where string, rule iec.Rule, orig []byte, snapshot [][]byte, part
 			}
 		}
 		class("decode:" + ec + ":" + lc)
-		if k > 0 {
+		if k > 0 && partial {
 			r.Nontrivial(fmt.Sprintf("%s|%s|%x", where, key, mask))
 		}
 		if !partial {
@@ -510,13 +512,18 @@ func main() {
 	// ---- Part B / C
 	menu := [][2]int{{2, 1}, {3, 1}, {2, 2}, {4, 2}, {1, 1}}
 	maxSeq := 3
+	baseMenu := len(menu)
 	if r.Thorough() {
 		menu = append(menu, [2]int{6, 3}, [2]int{5, 1}, [2]int{8, 4})
-		maxSeq = 4 // policy allows at most 4 EC rules
+		maxSeq = 4 // policy allows at most 4 EC rules; 4-sequences only over the 5-rule base menu
 	}
 	var seqs [][][2]int
 	for n := 1; n <= maxSeq; n++ {
-		enumx.Seqs(len(menu), n, func(s []int) bool {
+		k := len(menu)
+		if n == 4 {
+			k = baseMenu
+		}
+		enumx.Seqs(k, n, func(s []int) bool {
 			q := make([][2]int, n)
 			for i, x := range s {
 				q[i] = menu[x]
@@ -574,7 +581,7 @@ func main() {
 	r.Set("cases_multi_rule", len(bs))
 	r.Set("rule_sequences", len(seqs))
 	r.Rule(fmt.Sprintf("A: rules d 1..%d x p 0..%d, lengths 0..4d+3 + {255,256,257,4096}(+5 thorough), 2 contents; per case every erasure mask of size <= p+1 (size p+1 must be refused), every non-empty requested subset of the erased set for DecodeIndexes, every index interval for DecodeRange. "+
-		"B: every rule sequence of length 1..%d over a %d-rule menu through the real modifyECParentObject x %d lengths x 5 deterministic pool states x reader cut sets; C: reuse of the buffer Close() returns to the pool (6 previous lengths). "+
+		"B: every rule sequence of length 1..%d (length 4: over the first 5 rules) over a %d-rule menu through the real modifyECParentObject, each rule's parts compared with a private encoding and decoded under every single erasure, x %d lengths x 5 deterministic pool states x reader cut sets; C: reuse of the buffer Close() returns to the pool (6 previous lengths). "+
 		"one evaluation = one Encode/Decode/DecodeIndexes/DecodeRange/modifyECParentObject call checked; non-trivial = distinct (case, non-empty erasure mask) that decoded, or multi-rule case with non-empty payload", maxD, maxP, maxSeq, len(menu), len(lensB)))
 	r.Exhaustive(!notExhaustive.Load())
 	r.Assume("p=0 rules are outside what netmap policy verification admits (parity >= 1); they are included because internal/ec accepts them",
